@@ -334,11 +334,25 @@ pub fn gen_v1(t: &mut Tape) -> Case {
         "length" => {
             let total = t.usize_in(108, 140);
             let mut line = b"PROXY UNKNOWN ".to_vec();
+            // one line in three is padded with 2- / 3- / 4-byte characters: more than 107 BYTES, but - for totals up to about
+            // 200 bytes - no more than 107 characters
+            let multibyte = t.chance(1, 3);
+            let total = if multibyte && t.coin() { t.usize_in(108, 220) } else { total };
             while line.len() < total - 2 {
-                line.push(match t.weighted(&[8, 1]) {
-                    0 => b'a' + (line.len() % 26) as u8,
-                    _ => b' ',
-                });
+                let left = total - 2 - line.len();
+                match t.weighted(&[8, 1, if multibyte { 12 } else { 0 }]) {
+                    0 => line.push(b'a' + (line.len() % 26) as u8),
+                    1 => line.push(b' '),
+                    _ => {
+                        let c = *t.pick(&['\u{e9}', '\u{e9}', '\u{20ac}', '\u{1f600}']);
+                        if c.len_utf8() <= left {
+                            let mut buf = [0u8; 4];
+                            line.extend_from_slice(c.encode_utf8(&mut buf).as_bytes());
+                        } else {
+                            line.push(b'z');
+                        }
+                    }
+                }
             }
             line.extend_from_slice(b"\r\n");
             return Case { input: line, element: element.to_string(), base: None };
